@@ -51,9 +51,12 @@ Definition slip_price (g : mcfg) (i : mins) (pb : mbar) (o : morder) (price : Q)
 Definition ge_opt (x : Q) (y : option Q) : bool := match y with Some v => qle_b v x | None => false end.
 Definition le_opt (x : Q) (y : option Q) : bool := match y with Some v => qle_b x v | None => false end.
 
-(* the volume cap: floor((round(volume * percent) - turnover) / lot) * lot *)
+(* the bar's allowance in whole lots: floor(round(volume * percent) / lot) * lot *)
+Definition lot_cap (g : mcfg) (i : mins) (volume : Q) : Q :=
+  qmul (zq (Qfloor (qdiv (zq (qround_even (qmul volume (m_volume_percent g)))) (i_lot i)))) (i_lot i).
+(* the volume cap: what is left of it, again in whole lots: floor((lot_cap - turnover) / lot) * lot *)
 Definition volume_cap (g : mcfg) (i : mins) (volume turnover : Q) : Q :=
-  qmul (zq (Qfloor (qdiv (qsub (zq (qround_even (qmul volume (m_volume_percent g)))) turnover) (i_lot i)))) (i_lot i).
+  qmul (zq (Qfloor (qdiv (qsub (lot_cap g i volume) turnover) (i_lot i)))) (i_lot i).
 
 (* the price checks: 0 = go on, 1 = leave the order alone, 2 / 3 = reject a market order at limit up / down *)
 Definition price_gate (g : mcfg) (pb : mbar) (o : morder) (deal : Q) : nat :=
